@@ -15,11 +15,11 @@ import (
 // SideDef describes an executed (bounded) or static check that runs the real
 // code of /repo through `go test -overlay` (nothing is written into /repo).
 type SideDef struct {
-	Kind     string   `json:"kind"`    // gotest
-	Pkg      string   `json:"pkg"`     // package dir relative to /repo
-	Files    []string `json:"files"`   // test sources under /verif, injected into Pkg
-	Run      string   `json:"run"`     // test name
-	Label    string   `json:"label"`   // "bounded" | "static" | "replay"
+	Kind     string   `json:"kind"`  // gotest
+	Pkg      string   `json:"pkg"`   // package dir relative to /repo
+	Files    []string `json:"files"` // test sources under /verif, injected into Pkg
+	Run      string   `json:"run"`   // test name
+	Label    string   `json:"label"` // "bounded" | "static" | "replay"
 	TimeoutS int      `json:"timeout_s"`
 	Tags     string   `json:"tags"`
 	Shims    []string `json:"shims"` // source files of /repo replaced by a mechanically rewritten copy (os.<effect> -> verifOS.<effect>)
